@@ -45,6 +45,9 @@ EXPLANATION += ' Added: (R11) no file-system effect in the dump entry points bef
 TECHNIQUE += '; whole evaluation of the documentation decorator factories'
 EXPLANATION += ' R7: every public document_* factory is interpreted as a whole (its value is the decorator closure, which is applied to a model function object) with all lists given and with the optional list omitted; the lists attached are read off the object.'
 # --- end metadata round-2 twins
+# --- metadata added after the round-3 refactoring twins
+EXPLANATION += ' R2 looks for the listing call in the registry builder and the helpers it calls (the order is decided by evaluation in R9). R5 sees "not found" checks written as a loop over (value, message) rows.'
+# --- end metadata round-3 twins
 TRUSTED = ["CPython ast parser", "pkgutil.iter_modules yields modules in sorted name order", "fnmatch glob semantics (* ? [seq])"]
 
 OPS = ("load_one", "load_many", "dump_one", "dump_many")
